@@ -923,7 +923,20 @@ def r03_2(ctx):
     n = 0
     # choose_blitter(mask, clip_mask: Option<&[u8]>, ..): every caller must pass the mask of the top clip entry
     clip_mask_param = False
-    if (b.locals[P_CS].get('ty') or '').startswith('std::option::Option<&'):
+    top_clip_param = False
+    if (b.locals[P_CS].get('ty') or '').startswith('std::option::Option<&') and (b.locals[P_CS].get('ty') or '').rstrip('>').endswith('Clip'):
+        # choose_blitter(mask, top_clip: Option<&Clip>, ..): every caller must pass clip_stack.last()
+        sites = []
+        for q2, b2 in ctx.F.bodies.items():
+            for bi2, d2, ct2 in calls_in(ctx, b2):
+                if d2 == DT + 'choose_blitter':
+                    sites.append((b2, bi2, ct2))
+        def is_top(t):
+            t = strip_all(t)
+            return is_call(t, '::last') and any(x[0] == 'field' and x[2] == 'clip_stack' for x in subterms(t))
+        top_clip_param = bool(sites) and all(is_top(ct2[2][P_CS - 1]) for b2, bi2, ct2 in sites)
+        ctx.check(top_clip_param, R, key + '|top clip argument', b.loc(), 'every caller passes clip_stack.last()', 'choose_blitter takes the top clip entry as a parameter but a caller does not pass clip_stack.last()')
+    elif (b.locals[P_CS].get('ty') or '').startswith('std::option::Option<&'):
         sites = []
         for q2, b2 in ctx.F.bodies.items():
             for bi2, d2, ct2 in calls_in(ctx, b2):
@@ -955,6 +968,9 @@ def r03_2(ctx):
             # the top clip's mask handed in by the caller instead of the whole stack (the call site is checked below)
             if v == 'Some' and strip_all(scr) == ('param', P_CS) and clip_mask_param:
                 has_clipmask = True
+            # the top clip entry handed in: its `.mask` is the clip mask
+            if v == 'Some' and top_clip_param and nm[-1:] == ['mask'] and (strip_all(scr)[3] or '').endswith('Clip') and any(x == ('param', P_CS) for x in subterms(scr)):
+                has_clipmask = True
         # the mask presence test reads the tuple built from the mask parameter
         srcover = None
         for op, a, b2, si in normalized_guards(ctx, b, bi):
@@ -985,7 +1001,8 @@ def r03_2(ctx):
             D = Deps(an)
             D.closure(c)
             okc = (any(x[0] == 'field' and x[2] == 'mask' and (x[3] or '').endswith('Clip') for x in D.visited) and any(is_call(x, '::last') for x in D.visited)) \
-                or (clip_mask_param and any(x == ('param', P_CS) for x in D.visited))
+                or (clip_mask_param and any(x == ('param', P_CS) for x in D.visited)) \
+                or (top_clip_param and any(x[0] == 'field' and x[2] == 'mask' and (x[3] or '').endswith('Clip') for x in D.visited) and any(x == ('param', P_CS) for x in D.visited))
             ctx.check(okc, R, sk + '|clip', b.loc(s['sp']), 'clip = mask of clip_stack.last()', 'the clip field does not come from the mask of the top clip')
             ctx.check(strip_all(f['clip_stride']) == ('param', P_W), R, sk + '|clip_stride', b.loc(s['sp']), 'clip_stride = surface width', 'clip_stride is %s, expected the surface width (clip masks are full-surface)' % fmt(b, f['clip_stride']))
         if 'blend_fn' in f:
@@ -1446,7 +1463,10 @@ def r05_4(ctx):
     ok = len(cs) == 1
     if ok:
         a = cs[0][1][2]
-        ok = (is_self_field(strip_all(a[1]), 'clip_stack') or (top_clip_mask_term(a[1]) and is_self_field(strip_all(field_path(top_root(a[1]))[0][2][0]), 'clip_stack'))) and a[0] == ('param', P_MASK) and a[4] == ('param', P_BLEND) and is_self_field(a[7], 'width')
+        def is_top_entry(t):
+            t = strip_all(t)
+            return is_call(t, '::last') and any(is_self_field(strip_all(x), 'clip_stack') for x in subterms(t))
+        ok = (is_self_field(strip_all(a[1]), 'clip_stack') or is_top_entry(a[1]) or (top_clip_mask_term(a[1]) and is_self_field(strip_all(field_path(top_root(a[1]))[0][2][0]), 'clip_stack'))) and a[0] == ('param', P_MASK) and a[4] == ('param', P_BLEND) and is_self_field(a[7], 'width')
     ctx.check(ok, R, 'draw_target::DrawTarget::composite|choose_blitter args', b.loc(), 'choose_blitter(mask, &self.clip_stack, .., blend, .., self.width)',
               'composite does not pass (mask, &self.clip_stack, blend, self.width) to choose_blitter: the top clip mask / its stride would not be honoured')
 
